@@ -141,10 +141,11 @@ pub fn behaviour() -> Behaviour {
         cfg,
         adjust: no_adjust,
         render,
-        quick: 4000,
+        quick: 7000,
         thorough: 20000,
         batch: 25,
         assumptions: &["a suffixed numeric literal on a primitive numeric field of another type is deliberately not generated (see DESIGN.md)"],
         miri_units: 0,
+        extra: None,
     }
 }
